@@ -260,7 +260,7 @@ impl Broker {
     //@ghost after `let cookie = BusListenerCookie::new_v4();`
         // ASSUMPTION (random UUIDv4): the new cookie is not the cookie of a live listener
         proof { assume(!self.bus_listeners@.contains_key(cookie)); }
-    //@ghost after `.insert(cookie, BusListener::new(id.clone()));`
+    //@ghost fn-tail
         proof {
             assert(!old(self).bus_listeners@.contains_key(cookie));
             assert(self.bus_listeners@.contains_key(cookie));
